@@ -251,12 +251,12 @@ PROPS = {
     "C20": _p("model_checking", ["dn", "sessions"], ["C20."],
               "thorough tier: the map invariants as an inductive invariant discharged by Apalache (spec/ind/NamesInd.tla: histories of any length over 4 attribute types; TLC-checked equivalence of its operators with Names.tla); cases = every sequence of exactly MaxOps (4 quick / 5 thorough) push/remove operations over 3-4 attribute types x 2 values (MC_Names.Histories), each followed by equality probes against freshly built names (same enumeration, proper prefix, reversed, last value changed) and by issuing a certificate whose subject is decoded; plus every history of 3 operations over 4 types (one a custom type carrying a standard OID) and 3 values (one empty); plus random walks of length 200 over 10 types and 6 value kinds with empty values; distinct by (operation, arguments) event",
               ops=["DnPush", "DnRemove", "DnEq", "DnEncode"], exhaustive=False),
-    "C04": _p("model_checking", ["cert", "time", "csr", "crl"], ["C04."],
-              "union of the certificate (MC_Cert), time (MC_Time), CSR (MC_Csr) and CRL (MC_Crl) case sets; every artefact is walked by the strict DER reader from the outermost element into every known extension value; value-dependent forms (key-usage named bits for all 512 sets, INTEGER for every serial class, BasicConstraints, SET OF order of CSR attributes) are recomputed in TLA+",
-              ops=["Cert", "Csr", "Crl"], exhaustive=True),
+    "C04": _p("model_checking", ["cert", "time", "csr", "crl", "import"], ["C04."],
+              "union of the certificate (MC_Cert), time (MC_Time), CSR (MC_Csr) and CRL (MC_Crl) case sets, plus certificates re-issued from imported (rcgen-made and foreign) CA certificates; every artefact is walked by the strict DER reader from the outermost element into every known extension value; value-dependent forms (key-usage named bits for all 512 sets, INTEGER for every serial class, BasicConstraints, SET OF order of CSR attributes) are recomputed in TLA+",
+              ops=["Cert", "Csr", "Crl", "ImportCa"], exhaustive=True),
     "C05": _p("model_checking", ["cert", "csr", "crl", "sessions"], ["C05."],
               "union of the certificate, CSR and CRL case sets; automatic serials are driven through public keys searched so that SHA-256 of the key starts with each of 13 two-octet prefix classes (00 00, 00 80, 7F FF, 80 00, FF FF, ...)",
-              ops=["Cert", "Csr", "Crl"], exhaustive=True),
+              ops=["Cert", "Csr", "Crl", "ImportCa"], exhaustive=True),
     "C01": _p("model_checking", ["faults", "cert", "csr", "crl", "csrparse", "sessions", "keys"], ["C01."],
               "union of the certificate, CSR and CRL case sets (all algorithms, local keys through eight loading entry points and remote signers; keys generated by rcgen itself under both back ends, every RSA algorithm and size) plus MC_Sign: every subset of the five signing calls of a root/intermediate/leaf/CRL/CSR session failing at the first attempt, for several error values",
               ops=["Cert", "Csr", "Crl", "CsrIssue", "KeyGen"], exhaustive=True),
